@@ -53,6 +53,7 @@ type target struct {
 	Structs     map[string]structCfg `json:"structs"`      // Go struct type → Lean constructor and the order of its fields
 	Imports     []string             `json:"imports"`      // further Lean modules the group's file imports
 	IterBody    bool                 `json:"iter_body"`    // the function returns an iterator: translate the body of the innermost function literal with a `yield` parameter; `if !yield(x) { return }` appends x to the fragments, which are the result (a consumer that never stops early)
+	Curried     bool                 `json:"curried"`      // the function's body is `return func(…) … { … }`: the literal's body is translated, over the parameters of both
 	OutParams   []string             `json:"out_params"`   // parameters the function writes to (an io.Writer): threaded through as text, returned as the result
 	Props       []string             `json:"props"`
 }
@@ -88,6 +89,7 @@ type fn struct {
 	leanFn     string
 	outVar     *types.Var // iter_body: the fragments emitted so far
 	yield      *types.Var
+	curried    *ast.FuncLit // curried: the function literal the function returns
 	curClosure *closure
 	inAux      bool                    // compiling the body of a loop or closure definition (self-calls go through the self__ parameter)
 	closures   map[*types.Var]*closure // local function literals
@@ -588,6 +590,14 @@ func (f *fn) paramVars() []*types.Var {
 	for i := 0; i < sig.Params().Len(); i++ {
 		if !f.dropped(sig.Params().At(i)) {
 			vs = append(vs, sig.Params().At(i))
+		}
+	}
+	if f.curried != nil {
+		ls := f.info.TypeOf(f.curried).(*types.Signature)
+		for i := 0; i < ls.Params().Len(); i++ {
+			if !f.dropped(ls.Params().At(i)) {
+				vs = append(vs, ls.Params().At(i))
+			}
 		}
 	}
 	return vs
@@ -2029,6 +2039,17 @@ func (f *fn) forLoop(x *ast.ForStmt, rest []ast.Stmt, k konts) ([]string, bool) 
 
 func (f *fn) translate() string {
 	sig := f.info.Defs[f.decl.Name].(*types.Func).Type().(*types.Signature)
+	if f.t.Curried {
+		if len(f.decl.Body.List) == 1 {
+			if r, ok := f.decl.Body.List[0].(*ast.ReturnStmt); ok && len(r.Results) == 1 {
+				f.curried, _ = r.Results[0].(*ast.FuncLit)
+			}
+		}
+		if f.curried == nil {
+			bad("curried: the body is not the return of one function literal")
+		}
+		sig = f.info.TypeOf(f.curried).(*types.Signature)
+	}
 	if !f.t.IterBody {
 		f.resTy = f.resultType(sig, &f.t)
 	}
@@ -2049,6 +2070,9 @@ func (f *fn) translate() string {
 		}
 	}
 	bodyList := f.decl.Body.List
+	if f.curried != nil {
+		bodyList = f.curried.Body.List
+	}
 	if f.t.IterBody {
 		var lit *ast.FuncLit
 		ast.Inspect(f.decl.Body, func(n ast.Node) bool {
